@@ -205,3 +205,300 @@ def block_programs(seed, n, count_jmp, start_id=1, **kw):
             g.top_sizes = [1, 2]
         out.append(g.program(start_id + i, count_jmp))
     return out
+
+
+# ------------------------------------------------------------------------------------------------
+# C02: bodies with rich expressions and raw jumps
+
+class ExprGen(BlockGen):
+    def __init__(self, rng, **kw):
+        super().__init__(rng, rich_exprs=True, **kw)
+        self.labels = 0
+
+    def int_expr(self, depth=0):
+        r = self.rng.random()
+        if depth >= 3 or r < 0.3:
+            return self.int_atom()
+        if r < 0.6:
+            op = self.rng.choice(["+", "-", "*", "+", "-", "*", "/", "%"])
+            if op in ("/", "%"):     # run-time division by zero is not decided: divide by non-zero constants only
+                return binop(op, self.int_expr(depth + 1), ilit(self.rng.choice([1, 2, 3, -1, -2])))
+            return binop(op, self.int_expr(depth + 1), self.int_expr(depth + 1))
+        if r < 0.68:
+            return unop("-", self.int_expr(depth + 1))
+        if r < 0.76 and self.floats:
+            return self.rng.choice([var(self.rng.choice(self.floats), "$"), unop("int", self.float_expr(depth + 1)),
+                                    unop("$", self.float_expr(depth + 1))])
+        if r < 0.84:
+            return {"k": "tern", "c": self.cond_expr(depth + 1), "a": self.int_expr(depth + 1), "b": self.int_expr(depth + 1)}
+        if r < 0.9 and self.cmp_values:
+            return binop(self.rng.choice(["==", "!=", "<", "<=", ">", ">="]), self.int_expr(depth + 1), self.int_expr(depth + 1))
+        if r < 0.96 and self.use_ds:
+            n = self.rng.choice([2, 3, 4])
+            cases = [self.int_expr(depth + 2)] + [self.int_expr(depth + 2) if self.rng.random() < 0.7 else {"k": "hole"} for _ in range(n - 1)]
+            return {"k": "ds", "cases": cases}
+        return self.int_atom()
+
+    def float_expr(self, depth=0):
+        r = self.rng.random()
+        if depth >= 3 or r < 0.4 or not self.floats:
+            return self.float_atom()
+        if r < 0.75:
+            return binop(self.rng.choice(["+", "-", "*"]), self.float_expr(depth + 1), self.float_expr(depth + 1))
+        if r < 0.82:
+            return unop("-", self.float_expr(depth + 1))
+        if r < 0.92:
+            return self.rng.choice([var(self.rng.choice(self.ints), "%"), unop("float", self.int_expr(depth + 1))])
+        return {"k": "tern", "c": self.cond_expr(depth + 1), "a": self.float_expr(depth + 1), "b": self.float_expr(depth + 1)}
+
+    def cond_expr(self, depth=0):
+        r = self.rng.random()
+        if r < 0.6:
+            return binop(self.rng.choice(["==", "!=", "<", "<=", ">", ">="]), self.int_expr(depth + 1), self.int_expr(depth + 1))
+        if r < 0.75 and self.floats:
+            return binop(self.rng.choice(["<", ">=", "==", "!="]), self.float_expr(depth + 1), self.float_expr(depth + 1))
+        return self.int_expr(depth + 1)
+
+    def cond(self, top=True):
+        r = self.rng.random()
+        if r < 0.5:
+            return self.cond_expr(1)
+        if r < 0.75:
+            return binop(self.rng.choice(["&&", "||"]), self.cond(False), self.cond(False))
+        if r < 0.85:
+            return unop("!", self.cond(False))
+        if r < 0.93 and top and self.count_jmp:
+            return {"k": "xcr", "op": "--", "order": "pre", "var": var(self.rng.choice(self.ints))}
+        return self.int_atom()
+
+    def simple(self):
+        r = self.rng.random()
+        if r < 0.3:
+            k = self.rng.random()
+            if k < 0.15:
+                return call(100, [])
+            if k < 0.5:
+                return call(101, [self.int_expr()])
+            if k < 0.65 and self.floats:
+                return call(102, [self.float_expr()])
+            if k < 0.85:
+                return call(103, [self.int_expr(1), self.int_expr(1)])
+            if self.floats:
+                return call(104, [self.int_expr(1), self.float_expr(1)])
+            return call(107, [self.int_atom(), self.int_expr(1), self.int_atom()])
+        if r < 0.7:
+            tgt = var(self.rng.choice(self.ints))
+            op = self.rng.choice(["=", "=", "=", "+=", "-=", "*=", "/=", "%="])
+            val = self.int_expr()
+            if op in ("/=", "%="):
+                val = ilit(self.rng.choice([1, 2, 3, -1]))
+            return {"k": "assign", "var": tgt, "op": op, "value": val}
+        if r < 0.82 and self.floats:
+            tgt = var(self.rng.choice(self.floats))
+            return {"k": "assign", "var": tgt, "op": self.rng.choice(["=", "=", "+=", "-=", "*="]), "value": self.float_expr()}
+        if r < 0.92:
+            self.nlocal += 1
+            name = "loc%d" % self.nlocal
+            if self.floats and self.rng.random() < 0.3:
+                init = self.float_expr(1)
+                self.locals[-1].append((name, "f"))
+                return {"k": "decl", "ty": "float", "vars": [{"var": local(name), "init": init}]}
+            init = self.int_expr(1)
+            self.locals[-1].append((name, "i"))
+            return {"k": "decl", "ty": "int", "vars": [{"var": local(name), "init": init}]}
+        return call(100, [])
+
+    def float_atom(self):
+        vis = [n for sc in self.locals for (n, t) in sc if t == "f"]
+        if vis and self.rng.random() < 0.25:
+            return local(self.rng.choice(vis))
+        return super().float_atom()
+
+    def flat_program(self, pid, cfg):
+        """a flat body: simple statements, labels and conditional / counting jumps (forward mostly)"""
+        self.locals = [[]]
+        n = self.rng.choice([2, 3, 4, 5, 6])
+        body = []
+        pending = []
+        for i in range(n):
+            if self.rng.random() < 0.25:
+                body.append(self.time_label())
+            if self.rng.random() < 0.3:
+                self.labels += 1
+                lab = "L%d" % self.labels
+                pending.append(lab)
+                kw = "unless" if self.rng.random() < 0.2 else "if"
+                j = {"k": "condjump", "kw": kw, "cond": self.cond(), "jump": "goto", "label": lab}
+                if self.rng.random() < 0.2:
+                    j["time"] = self.rng.choice([0, 5, 10, 20])
+                body.append(j)
+            s = self.simple()
+            if self.diff_labels and self.rng.random() < 0.25 and s["k"] in ("expr", "assign"):
+                s["diff"] = self.rng.choice(["E", "NH", "L", "ENH", "EN", "H"])
+            body.append(s)
+            if pending and self.rng.random() < 0.5:
+                body.append({"k": "label", "name": pending.pop(0)})
+        for lab in pending:
+            body.append({"k": "label", "name": lab})
+        body.append(call(100, []))
+        vars_ = [{"id": "r%d" % r, "ty": "i"} for r in self.ints] + [{"id": "r%d" % r, "ty": "f"} for r in self.floats]
+        return {"id": pid, "cfg": cfg, "vars": vars_, "body": body}
+
+    def block_program(self, pid, cfg):
+        p = self.program(pid, cfg.get("count_jmp", "!="))
+        p["cfg"] = cfg
+        return p
+
+
+BASE_CFG = {"int_regs": INT_REGS + [1020], "float_regs": FLOAT_REGS,
+            "scratch_int": INT_REGS, "scratch_float": FLOAT_REGS,
+            "assign_ops": ["=", "+=", "-=", "*=", "/=", "%="], "binops": ["+", "-", "*", "/", "%"], "unops": ["-"],
+            "cmp_binops": ["==", "!=", "<", "<=", ">", ">="],
+            "cond_jmp": "single", "count_jmp": "!=", "jmp_order": "ot", "aux_flags": False}
+
+
+def lang_configs():
+    """the 'sets of available intrinsics x argument orders x pool sizes' quantifier of C02 (named)"""
+    def mk(**kw):
+        c = dict(BASE_CFG)
+        c.update(kw)
+        return c
+    return [
+        ("native", mk()),
+        ("fallback-unop", mk(unops=[])),
+        ("assign-only-direct", mk(assign_ops=["="])),
+        ("no-binops", mk(binops=[], cmp_binops=[])),
+        ("two-part-cmp", mk(cond_jmp="two", jmp_order="to", cmp_binops=[])),
+        ("count-gt", mk(count_jmp=">", jmp_order="to")),
+        ("jump-no-time", mk(jmp_order="o")),
+        ("small-pool", mk(scratch_int=[1002, 1003], scratch_float=[1006])),
+        ("pool-1", mk(scratch_int=[1003], scratch_float=[1006], unops=[])),
+        ("no-scratch", mk(scratch_int=[], scratch_float=[])),
+        ("aux-flags", mk(aux_flags=True)),
+        ("no-count-two-part", mk(count_jmp="none", cond_jmp="two", assign_ops=["=", "+=", "-="])),
+    ]
+
+
+def expr_programs(seed, n, cfg, start_id=1, use_ds=True, diff_labels=True):
+    rng = random.Random(seed)
+    out = []
+    for i in range(n):
+        g = ExprGen(rng, max_depth=rng.choice([1, 1, 2]), allow_float=True, diff_labels=diff_labels and rng.random() < 0.3)
+        g.use_ds = use_ds and rng.random() < 0.4
+        g.cmp_values = bool(cfg.get("cmp_binops"))
+        g.count_jmp = cfg.get("count_jmp") != "none"
+        g.body_sizes = [1, 1, 2]
+        g.top_sizes = [1, 2, 2, 3]
+        if rng.random() < 0.6:
+            out.append(g.flat_program(start_id + i, cfg))
+        else:
+            out.append(g.block_program(start_id + i, cfg))
+    return out
+
+
+# ------------------------------------------------------------------------------------------------
+# C05: scenarios — which pool registers the script mentions, and in which syntactic position kind
+
+MENTION_KINDS = ["assign_target", "rhs", "sigil", "call_arg", "ds_call", "ds_assign", "jump_cond", "predec",
+                 "times_count", "times_clobber", "alias", "ternary", "while_cond", "compound_assign", "label_cond_time"]
+
+
+def mention_stmt(rng, kind, reg, is_float, labels):
+    v = var(reg)
+    other = var(1020)
+    if is_float and kind in ("predec", "times_count", "times_clobber", "jump_cond", "while_cond", "ternary"):
+        kind = rng.choice(["rhs", "call_arg", "sigil", "assign_target"])
+    if kind == "assign_target":
+        return [{"k": "assign", "var": v, "op": "=", "value": flit(1, 1) if is_float else ilit(2)}]
+    if kind == "compound_assign":
+        return [{"k": "assign", "var": v, "op": "+=", "value": flit(1, 1) if is_float else ilit(2)}]
+    if kind == "rhs":
+        return [{"k": "assign", "var": var(1021) if is_float else other, "op": "=", "value": v}]
+    if kind == "sigil":
+        return [call(101, [var(reg, "$")])] if is_float else [call(102, [var(reg, "%")])]
+    if kind == "call_arg":
+        return [call(102 if is_float else 101, [v])]
+    if kind == "ds_call":
+        lit = flit(1, 1) if is_float else ilit(1)
+        cases = rng.choice([[lit, v], [v, {"k": "hole"}, lit], [lit, lit, {"k": "hole"}, v]])
+        return [call(102 if is_float else 101, [{"k": "ds", "cases": cases}])]
+    if kind == "ds_assign":
+        lit = flit(1, 1) if is_float else ilit(1)
+        return [{"k": "assign", "var": var(1021) if is_float else other, "op": "=", "value": {"k": "ds", "cases": [lit, v, lit]}}]
+    if kind in ("jump_cond", "label_cond_time"):
+        labels[0] += 1
+        lab = "M%d" % labels[0]
+        j = {"k": "condjump", "kw": "if", "cond": binop("==", v, ilit(0)), "jump": "goto", "label": lab}
+        if kind == "label_cond_time":
+            j["time"] = 5
+        return [j, call(100, []), {"k": "label", "name": lab}]
+    if kind == "predec":
+        labels[0] += 1
+        lab = "M%d" % labels[0]
+        return [{"k": "label", "name": lab}, call(100, []),
+                {"k": "condjump", "kw": "if", "cond": {"k": "xcr", "op": "--", "order": "pre", "var": v}, "jump": "goto", "label": lab}]
+    if kind == "times_count":
+        return [{"k": "times", "count": v, "body": [call(100, [])]}]
+    if kind == "times_clobber":
+        return [{"k": "times", "count": ilit(2), "clobber": v, "body": [call(100, [])]}]
+    if kind == "ternary":
+        return [call(101, [{"k": "tern", "c": v, "a": ilit(1), "b": ilit(2)}])]
+    if kind == "while_cond":
+        return [{"k": "while", "do": False, "cond": binop(">", v, ilit(100)), "body": [call(100, [])]}]
+    if kind == "alias":
+        return [call(102 if is_float else 101, [{"k": "var", "sig": "", "id": "n:ALIAS%d" % reg}])]
+    raise ValueError(kind)
+
+
+def temp_stmt(rng, nesting):
+    """statements that need temporaries / locals; operands are non-pool registers 1020 (int) and 1021 (float)"""
+    a = var(1020)
+    f = var(1021)
+    def deep(n):
+        if n == 0:
+            return binop("+", a, ilit(rng.choice([1, 2, 3])))
+        return binop(rng.choice(["*", "+", "-"]), deep(n - 1), deep(n - 1))
+    r = rng.random()
+    if r < 0.35:
+        return [call(103, [deep(nesting), deep(max(0, nesting - 1))])]
+    if r < 0.55:
+        return [{"k": "decl", "ty": "int", "vars": [{"var": local("t%d" % rng.randrange(1000)), "init": deep(1)}]}]
+    if r < 0.7:
+        return [call(104, [deep(1), binop("*", binop("+", f, flit(1, 1)), binop("-", f, flit(3, 1)))])]
+    if r < 0.85:
+        return [{"k": "times", "count": a, "body": [call(101, [deep(1)])]}]
+    return [{"k": "block", "body": [
+        {"k": "decl", "ty": "float", "vars": [{"var": local("u%d" % rng.randrange(1000)), "init": binop("+", f, flit(1, 1))}]},
+        call(101, [deep(1)])]}]
+
+
+def regalloc_scenarios(seed, n, start_id=1):
+    rng = random.Random(seed)
+    out = []
+    for i in range(n):
+        si = rng.sample(INT_REGS, rng.choice([0, 1, 2, 3, 4]))
+        sf = rng.sample(FLOAT_REGS, rng.choice([0, 1, 2, 3]))
+        cfg = dict(BASE_CFG)
+        cfg.update(int_regs=INT_REGS + [1020], float_regs=FLOAT_REGS + [1021], scratch_int=si, scratch_float=sf,
+                   aliases={"ALIAS%d" % r: r for r in INT_REGS + FLOAT_REGS},
+                   unops=rng.choice([["-"], []]), cond_jmp=rng.choice(["single", "two"]),
+                   count_jmp=rng.choice(["!=", ">"]), cmp_binops=[])
+        if rng.random() < 0.15:
+            cfg["anti"] = 99
+        labels = [0]
+        body = []
+        pool = [(r, False) for r in si] + [(r, True) for r in sf]
+        nm = rng.choice([0, 1, 1, 2, 3])
+        chunks = []
+        for _ in range(min(nm, len(pool))):
+            reg, isf = rng.choice(pool)
+            chunks.append(mention_stmt(rng, rng.choice(MENTION_KINDS), reg, isf, labels))
+        for _ in range(rng.choice([1, 2, 3])):
+            chunks.append(temp_stmt(rng, rng.choice([1, 2, 2, 3])))
+        if "anti" in cfg and rng.random() < 0.7:
+            chunks.append([call(99, [])])
+        rng.shuffle(chunks)
+        for c in chunks:
+            body.extend(c)
+        out.append({"id": start_id + i, "cfg": cfg, "vars": [], "body": body})
+    return out
